@@ -283,6 +283,11 @@ func c31Engine(raw json.RawMessage, _ []string) (any, error) {
 		if r.ByWatchdog || r.Effective < k {
 			break // quiescent (or finished) before step k: larger k give the same run
 		}
+		if !r.Returned {
+			// a miss, confirmed by the re-run: it is reported; the goroutines of such runs keep running (an
+			// endless loop that ignores the context cannot be stopped from outside), so do not pile up more
+			break
+		}
 	}
 	return map[string]any{"id": v.ID, "runs": runs}, nil
 }
